@@ -29,12 +29,32 @@ theorem shapeRepeatList_eq_spec (s : Shape) (rs : List Nat) (k : Nat) (hk : k < 
     shapeRepeatList s rs (k : Int) = some (replaceExtent s k (sum rs)) := by
   simp [shapeRepeatList, atPy_nat, setPy_nat, hk, replaceExtent_eq_set]
 
-theorem indexRepeat_eq (r k x : Nat) (d : Idx) (hx : d[k]? = some x) : indexRepeat r (k : Int) d = d.set k (x / r) := by
-  simp [indexRepeat, mapAt_nat, hx]
+theorem indexRepeat_eq (s : Shape) (r k x : Nat) (d : Idx) (hx : d[k]? = some x) :
+    indexRepeat s r (k : Int) d = d.set k (x / r) := by
+  simp [indexRepeat, normAxis_nat, mapAt_nat, hx]
 
-theorem indexRepeatList_eq (rs : List Nat) (k x : Nat) (d : Idx) (hx : d[k]? = some x) :
-    indexRepeatList rs (k : Int) d = d.set k (firstAbove rs x) := by
-  simp [indexRepeatList, mapAt_nat, hx]
+theorem indexRepeatList_eq (s : Shape) (rs : List Nat) (k x : Nat) (d : Idx) (hx : d[k]? = some x) :
+    indexRepeatList s rs (k : Int) d = d.set k (firstAbove rs x) := by
+  simp [indexRepeatList, normAxis_nat, mapAt_nat, hx]
+
+/-- an accepted (possibly negative) axis behaves exactly like its normalised position -/
+theorem repeatView_axis_normalize (s : Shape) (r : Nat) (axis : Int) (k : Nat)
+    (hk : normalizeAxis1 axis s.length = some k) :
+    repeatView s r (some axis) = repeatView s r (some (k : Int)) := by
+  have hk' : normalizeAxis1 (k : Int) s.length = some k :=
+    normalizeAxis1_nat k _ (normalizeAxis1_some axis _ k hk).1
+  simp [repeatView, shapeRepeat, indexRepeat, atPy_of_normalizeAxis1 s axis k hk, setPy_of_normalizeAxis1 s axis k _ hk,
+    atPy_of_normalizeAxis1 s (k : Int) k hk', setPy_of_normalizeAxis1 s (k : Int) k _ hk',
+    normAxis_of_normalizeAxis1 axis _ k hk, normAxis_nat]
+
+theorem repeatListView_axis_normalize (s : Shape) (rs : List Nat) (axis : Int) (k : Nat)
+    (hk : normalizeAxis1 axis s.length = some k) :
+    repeatListView s rs axis = repeatListView s rs (k : Int) := by
+  have hk' : normalizeAxis1 (k : Int) s.length = some k :=
+    normalizeAxis1_nat k _ (normalizeAxis1_some axis _ k hk).1
+  simp [repeatListView, shapeRepeatList, indexRepeatList, atPy_of_normalizeAxis1 s axis k hk,
+    setPy_of_normalizeAxis1 s axis k _ hk, atPy_of_normalizeAxis1 s (k : Int) k hk',
+    setPy_of_normalizeAxis1 s (k : Int) k _ hk', normAxis_of_normalizeAxis1 axis _ k hk, normAxis_nat]
 
 theorem repeatSrc_length (rs : List Nat) (k0 : Nat) : (repeatSrc rs k0).length = sum rs := by
   induction rs generalizing k0 with
